@@ -2,7 +2,7 @@
 import importlib
 
 from symx import E, Case
-from harness.common import call
+from harness.common import call, newdict
 from spec import iec_tables as T
 
 import dali.frame as F
@@ -122,6 +122,30 @@ def _decode_is(ctx, bits, value, devtype, cls, tag):
         ctx.prove(q == (cls.response is not None), "is_query inconsistent", key=tag + "/is_query")
 
 
+def _sibling(kind, code, param):
+    """Fixed legal arguments for a second object of the row's class and its table encoding."""
+    if kind == "dapc":
+        return (A.GearShort(42), 77), T.encode16(kind, code, T.GEAR_ADDR["short"][1](42), 77)
+    if kind == "std":
+        p = 9 if param == "n4" else None
+        a7 = T.GEAR_ADDR["group"][1](11)
+        return ((A.GearGroup(11), p) if p is not None else (A.GearGroup(11),)), T.encode16(kind, code, a7, p)
+    if kind == "special" and param == "byte":
+        return (0x5A,), T.encode16("special", code, None, 0x5A)
+    if kind == "special" and param == "short":
+        return (37,), T.encode16("special", code, None, (37 << 1) | 1)
+    if kind == "dev":
+        return (A.DeviceGroup(19),), T.encode24("dev", code, 0x40 | 19)
+    if kind == "inst":
+        has, enc = T.INSTANCE["number"]
+        return (A.DeviceShort(50), INST_CLS["number"](27)), T.encode24("inst", code, 50, enc(27))
+    if kind == "dspecial" and param is not None:
+        return (0xA5,), T.encode24("dspecial", code, p1=0xA5)
+    if kind == "dspecial2":
+        return (0x12, 0xED), T.encode24("dspecial2", code, p1=0x12, p2=0xED)
+    return None
+
+
 def h_row(ctx, idx):
     row = T.ROWS[idx]
     part, name, kind, code, param, twice, answer, devtype = row
@@ -207,6 +231,17 @@ def h_row(ctx, idx):
     if st == "exc":
         ctx.fail("constructor rejected legal arguments: %r" % (c,), key=tag + "/ctor")
         return "ctor-exc"
+    # a second, live object of the same class with other (fixed) arguments, built and decoded before
+    # the first one's frame is read: two commands must never share mutable frame state
+    sib = _sibling(kind, code, param)
+    if sib is not None:
+        args2, want2 = sib
+        st2, c2 = call(cls, *args2)
+        st3, d2 = call(C.from_frame, F.ForwardFrame(bits, want2), devicetype=devtype)
+        ctx.prove(st2 == "ok" and E.eq(c2.frame.as_integer, want2),
+                  "a second command of the class (fixed arguments) has the wrong frame", key=tag + "/sibling-frame")
+        ctx.prove(st3 == "ok" and E.eq(d2.frame.as_integer, want2),
+                  "a decoded second command of the class has the wrong frame", key=tag + "/sibling-decoded")
     ctx.prove(E.eq(c.frame.__len__(), bits), "frame size is not %d" % bits, key=tag + "/size")
     ctx.prove(E.eq(c.frame.as_integer, want), "frame differs from the standard's encoding",
               key=tag + "/frame")
@@ -265,6 +300,22 @@ def h_event(ctx, idx):
         st, d = call(C.from_frame, F.ForwardFrame(24, want))
         ctx.prove(st == "ok" and type(d) is cls, "table event frame decodes to %s"
                   % (type(d).__name__ if st == "ok" else repr(d)), key=tag + "/decode:" + scheme)
+    else:
+        # the frame carries no instance type: decoded through a map (built with the real add_type) that
+        # names it, the table frame must come back as this class; without an entry as ambiguous
+        import dali.device.helpers as helpers
+        import dali.device.general as dg
+        m = helpers.DeviceInstanceTypeMapper()
+        m._mapping = newdict(ctx)
+        st, d = call(C.from_frame, F.ForwardFrame(24, want), dev_inst_map=m)
+        ctx.prove(st == "ok" and type(d) is dg.AmbiguousInstanceType,
+                  "device/instance table frame without a map entry decodes to %s, not AmbiguousInstanceType"
+                  % (type(d).__name__ if st == "ok" else repr(d)), key=tag + "/decode-nomap:" + scheme)
+        m.add_type(short_address=fields["short"], instance_number=fields["inst_number"], instance_type=itype)
+        st, d = call(C.from_frame, F.ForwardFrame(24, want), dev_inst_map=m)
+        ctx.prove(st == "ok" and type(d) is cls, "device/instance table frame decodes (through a map naming "
+                  "its type) to %s" % (type(d).__name__ if st == "ok" else repr(d)),
+                  key=tag + "/decode:" + scheme)
     ctx.observe("frame", ev.frame.as_integer)
     return scheme
 
